@@ -274,6 +274,18 @@ def _run_eg(case):
                 V.append(viol("C10:eg:pmf-not-mixture", "positive probability %r != weights_-mixture of predictors_ %r (weights %r) (%s)" % (
                     pmf[:, 1].tolist(), mix.tolist(), w.to_dict(), ctx), mix.tolist(), pmf[:, 1].tolist()))
             p = pmf[:, 1].tolist()
+            # the SAME array object, modified in place between two calls: the probabilities must follow the new contents
+            Xm = Xq.copy()
+            eg._pmf_predict(Xm)
+            Xm[:] = Xm[::-1].copy()
+            mixm = np.zeros(nq)
+            for t in w.index:
+                if w[t] != 0:
+                    mixm += float(w[t]) * np.asarray(eg.predictors_[t].predict(Xm), float).ravel()
+            pm2 = np.asarray(eg._pmf_predict(Xm), float)[:, 1]
+            if not np.allclose(pm2, mixm, rtol=0, atol=1e-12):
+                V.append(viol("C10:eg:pmf-stale-after-inplace-change", "after modifying the query array in place, _pmf_predict gives %r, the mixture on the new contents is %r (%s)" % (
+                    pm2.tolist(), mixm.tolist(), ctx), mixm.tolist(), pm2.tolist()))
             fn = lambda rs: eg.predict(Xq, random_state=rs)  # noqa: E731
             meas = _explore(_scripted_predict(fn, nq), nq, [[pi, 1 - pi] for pi in p], out)
             for r in range(nq):
